@@ -94,7 +94,7 @@ Section Seq.
   | PDedup (keyeq : tensor -> tensor -> bool) (size_limit : Z) (order : list gref)
   | PDce (sc : schema) (unnamed : list vid) (opset_graphs : list gref) (fuel : nat)
   | PLift (fuel : nat) (lift_all : bool) (size_limit : Z) (fresh : N)
-  | PCse (size_limit : Z) (fresh : N)
+  | PCse (size_limit : Z) (fresh : N) (omitted : list vid)
   | POutFix (scopes : list (list gref)) (fresh : N)
   | PReorder (m' : model)                       (* TopologicalSortPass: any result with reorder_modelb m m' = true *)
   | PLiftSub (order : list gref)
@@ -110,7 +110,7 @@ Section Seq.
     | PDedup ke sl order => dedup_inits ke sl order m
     | PDce sc u ops fuel => dce sc u ops fuel m
     | PLift fuel la sl fresh => fst (lift_constants fuel la sl other m fresh)
-    | PCse sl fresh => fst (cse sl m fresh)
+    | PCse sl fresh u => fst (cse u sl m fresh)
     | POutFix scopes fresh => fst (output_fix scopes m fresh)
     | PReorder m' => m'
     | PLiftSub order => lift_subgraph_inits order m
@@ -127,7 +127,7 @@ Section Seq.
     | PIdent _ | PDedup _ _ _ | PAddInit | PRmInit | PRmFunc _ | PInline _ _ _ => True
     | PDce sc u _ _ => NoBNTraining m /\ NoFuncOp sc m /\ OL m /\ UnnamedDead u m /\ frame_ok m
     | PLift _ _ _ fresh => ConstOK m /\ FreshOK m fresh
-    | PCse _ fresh => MainLocal m /\ FreshB m fresh
+    | PCse _ fresh _ => MainLocal m /\ FreshB m fresh
     | POutFix _ fresh => FreshAll m fresh
     | PReorder m' => reorder_modelb m m' = true
     | PLiftSub _ => NoDup (map fst (m_subs m))
@@ -154,7 +154,7 @@ Section Seq.
         intros op k name a t subs. apply interp_constant. }
       split; [destruct P; split; assumption | apply Pres_Refines; [exact P | apply lift_constants_signature_FreshOK; exact H2]].
     - destruct Hx as [H1 H2].
-      pose proof (cse_pres T absent tensor_val interp interp_mono interp_identity interp_trailing_absent size_limit m fresh HW HN H1 H2) as P.
+      pose proof (cse_pres T absent tensor_val interp interp_mono interp_identity interp_trailing_absent omitted size_limit m fresh HW HN H1 H2) as P.
       split; [destruct P; split; assumption | apply Pres_Refines; [exact P | apply cse_signature]].
     - pose proof (output_fix_pres T absent tensor_val interp interp_mono interp_identity scopes m fresh HW HN Hx) as P.
       split; [destruct P; split; assumption | apply Pres_Refines; [exact P|]].
